@@ -1,7 +1,6 @@
 package chaingen
 
 import (
-	"crypto/sha256"
 	"github.com/protolambda/zrnt/eth2/beacon/common"
 )
 
@@ -268,39 +267,48 @@ func (c *Chain) proposerSensitivity(st common.BeaconState, flats []common.FlatVa
 		c.Stats.Inc("epochs_active_effbal_changed_8_increments")
 		c.Stats.Max("max_active_validators_effbal_changed_8_increments", big)
 	}
-	if !changed || c.Epc == nil || c.Epc.CurrentEpoch == nil || c.Epc.Proposers == nil {
+	if !changed {
 		return
 	}
 	defer func() { recover() }()
-	cp := CopyState(st)
-	vals, err := cp.Validators()
-	if err != nil {
-		return
-	}
+	// own transcription of compute_proposer_index, once with the pre-transition and once with the new effective balances
+	active := specActive(flats, cur)
+	oldEff := make([]common.Gwei, len(flats))
 	for i := range flats {
-		if i < len(old) && old[i] != flats[i].EffectiveBalance {
-			v, err := vals.Validator(common.ValidatorIndex(i))
-			if err != nil {
-				return
-			}
-			if err := v.SetEffectiveBalance(old[i]); err != nil {
-				return
-			}
+		oldEff[i] = flats[i].EffectiveBalance
+		if i < len(old) {
+			oldEff[i] = old[i]
 		}
 	}
-	with, err := common.ComputeProposers(c.Spec, cp, cur, c.Epc.CurrentEpoch.ActiveIndices)
-	if err != nil {
+	with, _, err := specProposers(c.Spec, st, oldEff, active, cur)
+	if err != nil || with == nil {
 		return
 	}
-	now, err := common.ComputeProposers(c.Spec, st, cur, c.Epc.CurrentEpoch.ActiveIndices)
-	if err != nil {
+	now, _, err := specProposers(c.Spec, st, c.prevEff, active, cur)
+	if err != nil || now == nil {
 		return
 	}
-	for i := range now.Proposers {
-		if now.Proposers[i] != with.Proposers[i] {
+	for i := range now {
+		if now[i] != with[i] {
 			c.Stats.Inc("epochs_proposers_sensitive_to_effbal_change")
 			c.Stats.Inc("epochs_proposers_sensitive_to_effbal_change_" + StateFork(st).String())
-			return
+			break
+		}
+	}
+	// the same question for the sync committee drawn by this transition (period boundary in an altair+ stretch)
+	sp := c.Spec
+	if f := sp.ALTAIR_FORK_EPOCH; cur > f && cur%sp.EPOCHS_PER_SYNC_COMMITTEE_PERIOD == 0 {
+		a, _, _, err1 := specSyncCommittee(sp, st, oldEff, active, cur)
+		b, _, _, err2 := specSyncCommittee(sp, st, c.prevEff, active, cur)
+		if err1 == nil && err2 == nil && len(a) == len(b) {
+			for i := range a {
+				if a[i] != b[i] {
+					lf := c.forkAtEpoch(cur - 1)
+					c.Stats.Inc("sync_sampling_sensitive_to_effbal_update")
+					c.Stats.Inc("sync_sampling_sensitive_to_effbal_update_" + lf.String())
+					break
+				}
+			}
 		}
 	}
 }
@@ -320,51 +328,32 @@ func (c *Chain) forkAtEpoch(e common.Epoch) ForkID {
 	return Phase0
 }
 
-// samplingCounters re-runs the specification's two balance-weighted sampling loops (own transcription; only the shuffling
-// primitive and the seed come from zrnt) and counts how many candidates they look at.
+// samplingCounters re-runs the specification's two balance-weighted sampling loops (own transcriptions, specfn.go) and counts
+// how many candidates they look at.
 func (c *Chain) samplingCounters(st common.BeaconState, flats []common.FlatValidator, ended, cur common.Epoch) {
 	sp := c.Spec
-	if cur != ended+1 || c.Epc == nil || c.Epc.CurrentEpoch == nil || c.Epc.NextEpoch == nil {
+	if cur != ended+1 {
 		return
 	}
 	defer func() { recover() }()
-	mixes, err := st.RandaoMixes()
-	if err != nil {
-		return
-	}
-	accept := func(v common.ValidatorIndex, b byte) bool {
-		return flats[v].EffectiveBalance*0xff >= sp.MAX_EFFECTIVE_BALANCE*common.Gwei(b)
+	eff := make([]common.Gwei, len(flats))
+	for i := range flats {
+		eff[i] = flats[i].EffectiveBalance
 	}
 	// get_next_sync_committee_indices as it ran for this boundary
 	f := sp.ALTAIR_FORK_EPOCH
 	var base common.Epoch
-	var active []common.ValidatorIndex
+	do := false
 	switch {
 	case cur == f:
-		base, active = cur+1, c.Epc.NextEpoch.ActiveIndices // upgrade_to_altair: epoch of the state + 1
+		base, do = cur+1, true // upgrade_to_altair: epoch of the state + 1
 	case cur > f && cur%sp.EPOCHS_PER_SYNC_COMMITTEE_PERIOD == 0:
-		base, active = cur, c.Epc.CurrentEpoch.ActiveIndices // computed by the transition that ended cur-1
+		base, do = cur, true // computed by the transition that ended cur-1
 	}
-	if n := uint64(len(active)); n > 0 {
-		seed, err := common.GetSeed(sp, mixes, base, common.DOMAIN_SYNC_COMMITTEE)
-		if err == nil {
-			var buf [40]byte
-			copy(buf[:32], seed[:])
-			examined, rejected, got := uint64(0), 0, uint64(0)
-			var h [32]byte
-			for i := uint64(0); got < uint64(sp.SYNC_COMMITTEE_SIZE) && i < 100000; i++ {
-				cand := active[common.PermuteIndex(uint8(sp.SHUFFLE_ROUND_COUNT), common.ValidatorIndex(i%n), n, seed)]
-				if i%32 == 0 {
-					binaryLE(buf[32:], i/32)
-					h = sha256Sum(buf[:])
-				}
-				if accept(cand, h[i%32]) {
-					got++
-				} else {
-					rejected++
-				}
-				examined = i + 1
-			}
+	if do {
+		active := specActive(flats, base)
+		_, examined, rejected, err := specSyncCommittee(sp, st, eff, active, base)
+		if n := uint64(len(active)); err == nil && n > 0 {
 			c.Stats.Max("max_sync_sampling_candidates_over_active_permille", int(examined*1000/n))
 			if examined > n {
 				c.Stats.Inc("sync_sampling_wrapped_candidates")
@@ -376,41 +365,20 @@ func (c *Chain) samplingCounters(st common.BeaconState, flats []common.FlatValid
 		}
 	}
 	// compute_proposer_index of every slot of the new epoch
-	act := c.Epc.CurrentEpoch.ActiveIndices
-	if n := uint64(len(act)); n > 0 {
-		es, err := common.GetSeed(sp, mixes, cur, common.DOMAIN_BEACON_PROPOSER)
-		if err != nil {
-			return
-		}
-		for s := uint64(0); s < uint64(sp.SLOTS_PER_EPOCH); s++ {
-			var sb [40]byte
-			copy(sb[:32], es[:])
-			binaryLE(sb[32:], uint64(cur)*uint64(sp.SLOTS_PER_EPOCH)+s)
-			seed := common.Root(sha256Sum(sb[:]))
-			var buf [40]byte
-			copy(buf[:32], seed[:])
-			row := 0
-			for i := uint64(0); i < 10000; i++ {
-				cand := act[common.PermuteIndex(uint8(sp.SHUFFLE_ROUND_COUNT), common.ValidatorIndex(i%n), n, seed)]
-				binaryLE(buf[32:], i/32)
-				h := sha256Sum(buf[:])
-				if accept(cand, h[i%32]) {
-					break
-				}
-				row++
-			}
-			c.Stats.Max("max_proposer_sampling_rejections_in_a_row", row)
-			if row >= 2 {
-				c.Stats.Inc("proposer_sampling_rejections_in_a_row")
+	props, maxRow, err := specProposers(sp, st, eff, specActive(flats, cur), cur)
+	if err == nil && c.Epc != nil && c.Epc.Proposers != nil && len(props) == len(c.Epc.Proposers.Proposers) {
+		// informational cross-check of the transcription against the live context (differs under context defects)
+		for i := range props {
+			if props[i] != c.Epc.Proposers.Proposers[i] {
+				c.Stats.Inc("own_proposers_differ_from_live_context")
+				break
 			}
 		}
 	}
-}
-
-func binaryLE(b []byte, v uint64) {
-	for i := 0; i < 8; i++ {
-		b[i] = byte(v >> (8 * uint(i)))
+	if err == nil {
+		c.Stats.Max("max_proposer_sampling_rejections_in_a_row", maxRow)
+		if maxRow >= 2 {
+			c.Stats.Inc("proposer_sampling_rejections_in_a_row")
+		}
 	}
 }
-
-func sha256Sum(b []byte) [32]byte { return sha256.Sum256(b) }
